@@ -99,7 +99,30 @@ class C14(PropertyCheck):
             "exhaustive": gen_hash.exhaustive(1 if q else 2, "x"),
             "random": gen_hash.random_scripts(rng, 1500 if q else 30000, 30, False, "r"),
             "malformed": gen_hash.random_scripts(rng, 600 if q else 10000, 12, True, "m"),
+            "incremented-then-read": self.incremented(),
         }
+
+    def incremented(self):
+        """a field written by HINCRBY / HINCRBYFLOAT (which store numbers without going through the typing of written
+        strings) and then read by every reader: very small and very large magnitudes included"""
+        out = []
+        incs = ["0.00001", "-0.00002", "0.0001", "1000000000000000000000", "0.5", "3", "-0.125", "100.75"]
+        starts = [None, "1", "0.5", "7"]
+        n = 0
+        for inc in incs:
+            for st in starts:
+                if st is not None and len(inc) > 15:
+                    continue          # the sum must be exact in binary64 (the model computes with exact rationals)
+                s = Script("inc%d" % n, {}); n += 1
+                if st is not None:
+                    s.cmd(0, "HSET", "k", "f", st)
+                s.cmd(0, "HINCRBYFLOAT", "k", "f", inc)
+                for argv in (["HGET", "k", "f"], ["HSTRLEN", "k", "f"], ["HVALS", "k"], ["HGETALL", "k"], ["HMGET", "k", "f", "nope"],
+                             ["HINCRBYFLOAT", "k", "f", "0"], ["HSTRLEN", "k", "f", "nope"]):
+                    s.cmd(0, *argv)
+                s.digest()
+                out.append(s)
+        return out
 
     def exhaustive_note(self):
         d = 1 if self.tier == "quick" else 2
